@@ -11,7 +11,7 @@
                     vrel / orel (closures: same parameters and body, every name the body can use
                     resolves to related values, the reference may capture more). *)
 From P2 Require Import Base.Prelude Sem.Num Sem.Syntax Sem.Ops Sem.Lib Sem.Ref Sem.Gen Sem.Sim
-     Sem.RelProofs Sem.OpsProofs Sem.LibProofs Sem.GenProofs.
+     Sem.SimExamples Sem.RelProofs Sem.OpsProofs Sem.LibProofs Sem.GenProofs.
 
 (* T1: for every fuel, program, frame and storage - lock-step simulation (same fuel on both sides,
    out-of-fuel only related to out-of-fuel), and nothing below the top of the frame is disturbed *)
@@ -99,33 +99,12 @@ Proof. exact wfb_sound. Qed.
      func fac(n) if n<2 then 1 else n*fac(n-1);
      let h = a->b->c->a+b+c+x; let g = (a,b)->b; let m = {f: p->p+x};
      fac(x) + h(1)(2)(3) + g(x, let y=x+1; y) + m.f(let y=10; y)          with x = 5 *)
-Local Open Scope N_scope.
-Definition nx : name := [120]. Definition nn : name := [110]. Definition nfac : name := [102;97;99].
-Definition ng : name := [103]. Definition ny : name := [121]. Definition nm : name := [109].
-Definition nf : name := [102]. Definition np : name := [112]. Definition nh : name := [104].
-Definition na : name := [97]. Definition nb : name := [98]. Definition nc : name := [99].
-Definition ci (z : Z) := AConst (VInt z).
-Definition ex_prog : ast :=
-  ALet nfac (AClosure [nn]
-               (AIf (AOp op_lt (AIdent nn) (ci 2)) (ci 1)
-                    (AOp op_mul (AIdent nn) (ACall (AIdent nfac) [AOp op_sub (AIdent nn) (ci 1)])))
-               [] true nfac)
- (ALet nh (AClosure [na] (AClosure [nb] (AClosure [nc]
-               (AOp op_add (AOp op_add (AOp op_add (AIdent na) (AIdent nb)) (AIdent nc)) (AIdent nx))
-               [na; nb; nx] false []) [na; nx] false []) [nx] false [])
- (ALet ng (AClosure [na; nb] (AIdent nb) [] false [])
- (ALet nm (AMap [(nf, AClosure [np] (AOp op_add (AIdent np) (AIdent nx)) [nx] false [])])
-   (AOp op_add (ACall (AIdent nfac) [AIdent nx])
-   (AOp op_add (ACall (ACall (ACall (AIdent nh) [ci 1]) [ci 2]) [ci 3])
-   (AOp op_add (ACall (AIdent ng) [AIdent nx; ALet ny (AOp op_add (AIdent nx) (ci 1)) (AIdent ny)])
-               (AMethod (AIdent nm) nf [ALet ny (ci 10) (AIdent ny)]))))))).
-
 Example C01_core_nonvacuous :
-  wf (map Some [nx]) [] ex_prog /\
-  gen_check (S (ast_size ex_prog)) (map Some [nx]) [] ex_prog = true /\
+  wf (map Some [ex_nx]) [] ex_prog /\
+  gen_check (S (ast_size ex_prog)) (map Some [ex_nx]) [] ex_prog = true /\
   side_ok ex_prog = true /\
-  eval [] 60 (combine [nx] [VInt 5]) ex_prog = Ok (VInt 152) /\
-  run [] 60 ex_prog [nx] [VInt 5] = Ok (VInt 152).
+  eval [] 60 (combine [ex_nx] [VInt 5]) ex_prog = Ok (VInt 152) /\
+  run [] 60 ex_prog [ex_nx] [VInt 5] = Ok (VInt 152).
 Proof.
   split; [apply wfb_sound; vm_compute; reflexivity|].
   split; [vm_compute; reflexivity|]. split; [vm_compute; reflexivity|]. split; vm_compute; reflexivity.
@@ -134,13 +113,22 @@ Qed.
 (* the side condition on a closure's own name is needed: Generate accepts this annotated tree (own
    name f listed as an outer identifier, Recursive not set - a shape the parser never produces),
    the reference binds f to the closure itself, the generated code to the captured argument *)
-Definition bad_this : ast := ACall (AClosure [np] (AIdent nf) [nf] false nf) [ci 1].
 Example side_condition_this_needed :
-  gen_check (S (ast_size bad_this)) (map Some [nf]) [] bad_this = true /\
+  gen_check (S (ast_size bad_this)) (map Some [ex_nf]) [] bad_this = true /\
   side_ok bad_this = false /\
-  run [] 20 bad_this [nf] [VInt 7] = Ok (VInt 7) /\
-  eval [] 20 (combine [nf] [VInt 7]) bad_this <> Ok (VInt 7).
+  run [] 20 bad_this [ex_nf] [VInt 7] = Ok (VInt 7) /\
+  eval [] 20 (combine [ex_nf] [VInt 7]) bad_this <> Ok (VInt 7).
 Proof. repeat split; try (vm_compute; reflexivity). vm_compute. discriminate. Qed.
+
+(* the hypothesis "Generate accepts the program" of C01_from_ast cannot be dropped: wf alone does not
+   exclude Generate-time errors in code that is never evaluated (here: sqr() with no argument in the
+   untaken branch - the reference, which has no compile step, answers 1) *)
+Example C01_from_ast_needs_gen_check :
+  wf (map Some []) [] arity_in_dead_branch /\
+  gen_check (S (ast_size arity_in_dead_branch)) (map Some []) [] arity_in_dead_branch = false /\
+  eval [] 20 (combine [] []) arity_in_dead_branch = Ok (VInt 1) /\
+  run [] 20 arity_in_dead_branch [] [] = Err None.
+Proof. split; [cbn; auto|]. repeat split; vm_compute; reflexivity. Qed.
 
 Print Assumptions exec_sim.
 Print Assumptions C01_from_ast.
